@@ -1,4 +1,5 @@
 import QuillModel.Codec.Statement
+import QuillModel.Codec.Window
 /-!
 # C04 — async-formatted message = call-site formatting; deep copy; reserved = written = consumed bytes
 
@@ -54,6 +55,22 @@ theorem C04_index_alignment (old : Mem) (a : Arg) (h : wf a = true) :
         encode old c' i pos a = some (enc old pos a, i + (lens a).length)) :=
   ⟨fun c => by rw [sizePass_spec old a c 0 h]; exact pushAll_data c (lens a),
    fun c' i pos hw => encode_spec old a c' i pos h hw⟩
+
+/-- **exactly those entries.** For the encode pass of `a` started at index `i`: (a) only the entries
+    `i … i + |lens a| − 1` matter — any cache agreeing with a good one on that range gives the same bytes and the same
+    end index; (b) every one of them is needed — a cache that ends anywhere inside the range makes the pass fault
+    (`none`: the C++ `operator[]` throws `index out of bounds`). With `C04_index_alignment` (the pass ends at
+    `i + |lens a|`, and the size pass wrote `lens a` at exactly that range) the entries consumed by `encode` are exactly
+    those pushed by `compute_encoded_size`, in order. -/
+theorem C04_window_exact (old : Mem) (a : Arg) (h : wf a = true) (c1 c2 : Cache) (i pos : Nat) :
+    (Window c1 i (lens a) → (∀ j, j < (lens a).length → c2.data[i + j]? = c1.data[i + j]?) →
+        encode old c2 i pos a = encode old c1 i pos a) ∧
+    (Short c1 i (lens a) → encode old c1 i pos a = none) := by
+  refine ⟨fun hw heq => ?_, fun hs => encode_short old a c1 i pos h hs⟩
+  have hw2 : Window c2 i (lens a) := by
+    rw [window_iff] at hw ⊢
+    intro j hj; rw [heq j hj, hw j hj]
+  rw [encode_spec old a c1 i pos h hw, encode_spec old a c2 i pos h hw2]
 
 /-- an empty optional caches nothing (and an engaged one exactly what its value caches) -/
 theorem C04_optional_alignment (es : Shape) (a : Arg) : lens (.optNone es) = [] ∧ lens (.optSome a) = lens a := by
@@ -191,6 +208,10 @@ def sampleArgs : List Arg :=
     .tuple [.prim .ptr [0, 0, 0, 0, 0, 0, 0, 0], .seq kiArray .str [.str [], .str [33]]] ]
 
 example : wfL sampleArgs = true := by decide
+/-- the seven cached lengths of `sampleArgs` are all needed: with six of them the encode pass faults -/
+example : encodeL (fun _ => 0) { data := [3, 4, 3, 2, 1, 2], cap := 12 } 0 0 sampleArgs = none := by decide
+example : (encodeL (fun _ => 0) { data := [3, 4, 3, 2, 1, 2, 1, 99], cap := 12 } 0 0 sampleArgs).map (·.2) = some 7 := by
+  decide
 example : lensL sampleArgs = [3, 4, 3, 2, 1, 2, 1] := by decide
 example : (sizeStatement (Cache.init 12) sampleArgs).1 = 94 := by decide
 /-- thirteen C strings in one statement: the cache grows once (12 → 24) and keeps all thirteen lengths -/
